@@ -8,6 +8,7 @@ mod p_bpetrain;
 mod p_edit;
 mod p_loader;
 mod p_editword;
+mod p_infer;
 mod p_multigen;
 mod p_pipe;
 mod p_proc;
@@ -44,6 +45,7 @@ fn component(name: &str) -> (ExecFn, GenFn) {
         "proc" => (p_proc::exec, p_proc::gen),
         "post" => (p_post::exec, p_post::gen),
         "chat" => (p_chat::exec, p_chat::gen),
+        "infer" => (p_infer::exec, p_infer::gen),
         "ws" => (p_ws::exec, p_ws::gen),
         "bpetrain" => (p_bpetrain::exec, p_bpetrain::gen),
         "tok" => (p_tok::exec, p_tok::gen),
